@@ -43,6 +43,7 @@ type Options struct {
 	Deadline    time.Time
 	Verbose     bool
 	C06         bool
+	Fixed       map[string]int
 }
 
 // Result of exploring one harness.
@@ -151,6 +152,8 @@ func newExec(i *interpreter, prefix []int64, opt Options, st *Stats) *Exec {
 		pools:   map[*value][]value{},
 		onceDone: map[*value]bool{},
 		stubsUsed: st.stubs(),
+		fixed:     opt.Fixed,
+		symMaps:   map[uintptr][]symMapEntry{},
 		coalesce: opt.Coalesce, summarise: opt.Summarise, crossEvery: opt.CrossEvery,
 	}
 	return e
@@ -181,7 +184,7 @@ func (p *Program) Explore(pkg *ssa.Package, opt Options) *Result {
 		opt.Limits.MaxDecisions = 20000
 	}
 	if opt.Limits.MaxConcVals == 0 {
-		opt.Limits.MaxConcVals = 8192
+		opt.Limits.MaxConcVals = 600
 	}
 	if opt.MaxFindings == 0 {
 		opt.MaxFindings = 6
@@ -216,6 +219,7 @@ func (p *Program) Explore(pkg *ssa.Package, opt Options) *Result {
 		e.fset = p.Prog.Fset
 		e.siteOf = siteOf
 		e.started = time.Now()
+		e.deadline = opt.Deadline
 		if opt.C06 {
 			e.enableAccessLog()
 		}
@@ -400,7 +404,7 @@ func (e *Exec) sampleValues() map[string]string {
 		return e.valuesFromModel(nil)
 	}
 	// cheap: pick from domains when no general constraints exist
-	if len(e.general) == 0 {
+	if len(e.general) == 0 && len(e.clauses) == 0 && len(e.bins) == 0 {
 		m := map[*Term]uint64{}
 		for _, t := range want {
 			if t.W == 8 {
@@ -411,7 +415,7 @@ func (e *Exec) sampleValues() map[string]string {
 		}
 		return e.valuesFromModel(m)
 	}
-	r, model, _ := e.solver.Check(e.general, e.dom, want)
+	r, model, _ := e.solver.Check(e.allGeneral(), e.dom, want)
 	if r != Sat {
 		return map[string]string{"_": "no model (" + r.String() + ")"}
 	}
